@@ -41,6 +41,21 @@ Alphabet   = two tiers, see DESIGN "C03":
                 the object bit-identical and usable, custom attributes follow the documented copy semantics.
                 TWINS by copy.copy / copy.deepcopy / pickle / .copy(): equal to the original, behave like it,
                 in-place operations on one never change the other. Dataset._registry is owned like module state.
+   List-content tier  the CONTENT of a list index as an alphabet: for an axis of length L every list of length <= 3 over
+                -L..L-1 (all of them: ascending, descending, reaching index 0 / -L, constant stride and not, duplicates,
+                unsorted, negative spellings), lists of length <= 2 also with the out-of-range neighbours -L-1 and L, in
+                every template of the index alphabet (alone behind k full slices, behind / before an Ellipsis, next to
+                other slice forms, next to an integer); in every initial state and (plain + Ellipsis templates) in the
+                states one shape-changing operation later (quick: 9 initials, lists of length <= 2 on axes longer than 4).
+   One-object tier  ONE object lives through the history: mutations in place on the object itself (pad / crop in place,
+                array setter with a fresh array of the same shape and dtype whose predecessor is released, array[...] =
+                other content), probes = copying variants of fourier_resample / bin / pad / crop on that very object.
+                Tree family: every history of length <= 4 (thorough 5) over 4 probes + 4 mutations from 3 initials;
+                cycle family: P (R P)^6 for 6 probes x 8 compound replacements that bring the object back to the same
+                shape and dtype with other content, from all 42 initials. Every history is run twice: observed (every
+                step judged by the reference model, last / every probe also in-place-vs-copying on a deep copy and
+                against the same operation on a freshly built dataset) and unobserved (only the public calls, nothing
+                allocated in between, as user code would), the two runs must agree step by step.
 Checks     every state: one origin/sampling/units entry per axis, class vs dimensionality;
            every transition: result == reference model (incl. calibration arithmetic), source
            bit-identical after every copying operation and not aliased by the result, in-place
@@ -112,7 +127,15 @@ CLAIM = (
     "np.float64 factors etc. must behave exactly like the canonical spelling or be rejected without changing anything. An extension tier "
     "explores histories with later registrations through Dataset.register_dimension (class of every result = class registered for its "
     "dimensionality at the time of the call), user subclasses with copy hooks, validating factories and properties (a refused operation "
-    "leaves its source bit-identical) and twins made by copy.copy / deepcopy / pickle / .copy() (isolated from the original). The thorough tier adds all histories of "
+    "leaves its source bit-identical) and twins made by copy.copy / deepcopy / pickle / .copy() (isolated from the original). A list-content tier indexes "
+    "every initial dataset, and the states one shape-changing operation later, with every list of length <= 3 over the whole index range -L..L-1 of the "
+    "addressed axis (ascending, descending, reaching index 0, any stride, duplicates, negative entries; short lists also out of range) in every position "
+    "the index alphabet allows (alone, behind slices, behind or before an Ellipsis, next to an integer). A one-object tier keeps ONE object through the "
+    "history - its array replaced in place between two data-dependent operations and back at the same shape and dtype with other content (pad then crop "
+    "in place, crop then pad, array setter with fresh same-sized arrays whose predecessors are released, several repetitions, in-place refill) - and "
+    "demands that every probe (copying fourier_resample / bin / pad / crop on that object) equals the reference model, the in-place variant on a deep "
+    "copy and the same operation on a freshly built dataset holding the same content, in an observed and in an unobserved run of the same history. "
+    "The thorough tier adds all histories of "
     "length 8 with at most 2 deviations from a slice-pad-crop-bin cycle. Model checking is the right level because the property "
     "quantifies over histories of a small operation alphabet and names the depth."
 )
@@ -125,7 +148,9 @@ NOTE = (
     "calibration is demanded. pad(output_shape) with a component smaller than the axis leaves that axis as it is (a pad never "
     "removes data). Negative axes count from the end. Empty arrays as operands are outside the alphabet. The extension tier sets and "
     "restores Dataset._registry (internal name; the tier is skipped and reported as seam_missing when it is absent); custom attributes "
-    "of index results are not demanded (indexing constructs through from_array, nothing documented)."
+    "of index results are not demanded (indexing constructs through from_array, nothing documented). The one-object tier treats assignment to the public "
+    "`array` attribute (it has a setter) and NumPy writes into it as public operations; whether an address is reused by the allocator is not controlled, "
+    "the histories only make it as likely as in user code (no evidence count depends on it)."
 )
 RULE = (
     "BFS with canonical-state dedup from every initial dataset, sharded by (initial, first event); the inner alphabet A_in(ndim) "
@@ -133,7 +158,10 @@ RULE = (
     "all tiers are enumerated completely. Every executed variant (copying, in-place) is one transition compared with the "
     "reference model. A transition is non-trivial when it discovers a canonical state not seen before; distinct_nontrivial is the "
     "number of distinct canonical states beyond the initial ones. The extension tier runs its own BFS whose state additionally holds the registry, "
-    "the custom attribute values and the lineage of the object (fresh / copy-born / index-born and the registry at that moment)."
+    "the custom attribute values and the lineage of the object (fresh / copy-born / index-born and the registry at that moment). "
+    "List-content tier: the Cartesian product index template x list content, every member one transition judged like any index expression. One-object tier: "
+    "all histories up to the stated length over probes + in-place mutations (tree family) and all probe x replacement cycles (cycle family), each "
+    "executed from a freshly built initial object, once observed step by step and once with nothing but the public calls."
 )
 
 TOL_SINGLE = 2e-4
@@ -2106,6 +2134,7 @@ OBJ_REPLACEMENTS = {
     "assign_2": (("arr",), ("arr",)),
     "assign_3": (("arr",), ("arr",), ("arr",)),
     "assign_same_content": (("arr_same",),),
+    "refill_in_place": (("fill",),),  # array[...] = other content: same array object, same shape and dtype
     "resample_up_down": (("fr", "plus1"), ("fr", "minus1")),
 }
 OBJ_TREE_INITIALS = [("Dataset", (4,), "float32"), ("Dataset2d", (3, 4), "int16"), ("Dataset", (2, 3, 4), "complex64")]
@@ -2153,6 +2182,9 @@ def obj_apply_raw(target, subs, contents):
         if sub[0] == "arr":
             target.array = np.array(contents[k])  # a fresh array, no reference kept: the previous array is released
             k += 1
+        elif sub[0] == "fill":
+            target.array[...] = contents[k]  # NumPy write through the public attribute: the array object stays
+            k += 1
         elif sub[0] == "arr_same":
             target.array = np.array(target.array)  # same content, new identity
         else:
@@ -2165,7 +2197,7 @@ def obj_event_text(ev, shape):
     parts = []
     for sub in ev[1:]:
         sub = tuple(sub)
-        parts.append({"arr": "array = <fresh array, same shape and dtype, other content>", "arr_same": "array = np.array(array)"}.get(sub[0]) or
+        parts.append({"arr": "array = <fresh array, same shape and dtype, other content>", "arr_same": "array = np.array(array)", "fill": "array[...] = <other content>"}.get(sub[0]) or
                      ("in-place " + (METHOD[sub[0]] + "(" + sub[1] + ")" if not shape else call_text(sub, shape))))
     return "on the object itself: " + "; ".join(parts)
 
@@ -2228,7 +2260,7 @@ def run_obj_history(init_i, seed, hist, st, fails_out, judge_all=True, pool=None
             cur = shape
             try:  # the model first (it also fixes the contents handed to the setter)
                 for sub in subs:
-                    if sub[0] == "arr":
+                    if sub[0] in ("arr", "fill"):
                         c = obj_content(pool, seed, init_i, cur, cands[0].a.dtype, arr_k)  # (the setter never follows a resample inside one compound)
                         arr_k += 1
                         contents.append(c)
@@ -2300,7 +2332,7 @@ def run_obj_raw(init_i, seed, hist, pool):
             else:
                 contents = []
                 for sub in ev[1:]:
-                    if sub[0] == "arr":
+                    if sub[0] in ("arr", "fill"):
                         contents.append(obj_content(pool, seed, init_i, obj.array.shape, obj.array.dtype, arr_k))
                         arr_k += 1
                 obj_apply_raw(obj, ev[1:], contents)
